@@ -1344,7 +1344,15 @@ class Operation(_IRNode):
         ):
             value_mapper[self_result] = cloned_result
             if clone_name_hints:
-                cloned_result.name_hint = self_result.name_hint
+                # Copy the stored hint as is: going through the `name_hint` setter
+                # would strip a further `_<digits>` suffix.
+                cloned_result._name = self_result._name  # pyright: ignore[reportPrivateUsage]
+        if clone_operands:
+            # An operation may use its own results (graph regions): these operands
+            # can only be remapped once the results are registered.
+            for idx, operand in enumerate(self._operands):
+                if isinstance(operand, OpResult) and operand.op is self:
+                    cloned_op.operands[idx] = value_mapper[operand]
         return cloned_op
 
     def clone(
@@ -2553,7 +2561,7 @@ class Region(_IRNode):
                 new_arg = new_block.args[idx]
                 value_mapper[block_arg] = new_arg
                 if clone_name_hints:
-                    new_arg.name_hint = block_arg.name_hint
+                    new_arg._name = block_arg._name  # pyright: ignore[reportPrivateUsage]
             for op in block.ops:
                 new_block.add_op(
                     op.clone(
@@ -2566,7 +2574,10 @@ class Region(_IRNode):
         # Handle cases where results may be created after their first use when walking
         # in lexicographic order.
         if clone_operands:
-            for old, new in zip(self.walk(), dest.walk()):
+            # Only walk the newly inserted blocks: `dest` may already contain
+            # operations before (and after) the insertion point.
+            new_ops = (op for new_block in new_blocks for op in new_block.walk())
+            for old, new in zip(self.walk(), new_ops, strict=True):
                 new.operands = tuple(
                     value_mapper.get(operand, operand) for operand in old.operands
                 )
